@@ -487,10 +487,14 @@ func (st *ccState) refused(c *ccCall) bool {
 			return false
 		}
 	}
-	if st.readErrSeq != 0 && st.readErrSeq < c.retSeq {
-		return false // explained by the failed read (see checkErrors)
-	}
 	return true
+}
+
+// afterReadFailure: the socket's ReadFrom had failed before the call returned. A client may
+// then fail its calls with an error of its own instead of letting them wait for responses it
+// can no longer receive; such an error is explained by the history.
+func (st *ccState) afterReadFailure(c *ccCall) bool {
+	return st.readErrSeq != 0 && st.readErrSeq < c.retSeq
 }
 
 // atTryBoundary: t is the instant at which one of c's tries ends (its write's end plus its wait).
@@ -536,7 +540,7 @@ func (st *ccState) oracleRefusal(v *vio) {
 				v.add("R5-refused-after-accept", "call %d was refused after its matcher accepted a message", b.id)
 			}
 			// converse: somebody else must use the id during b's life
-			if !st.idContended(b) {
+			if !st.idContended(b) && !(st.afterReadFailure(b) && !st.cfg.p.IsInUse(b.err)) {
 				v.add("R5-spurious-refusal", "call %d (xid %x) was refused (%v) although no other call used that id during its life", b.id, b.spec.xid, b.err)
 			}
 			continue
